@@ -43,26 +43,21 @@ def oddpos_dag(oddpos):
     return tuple(r.dag for r in reversed(oddpos))
 
 
-def resolve_combined_oddpos(left, right, new):
-    """Given we have contracted two fermionic arrays, resolve the oddpos
-    of the new array, possibly flipping the global phase.
+def resolve_oddpos(l_oddpos, r_oddpos, l_parity):
+    """Combine the oddpos of a left array (with parity ``l_parity``) and a
+    right array, via a phased sort and annihilation of conjugate pairs.
 
-    Parameters
-    ----------
-    left, right, new : FermionicArray
-        The left and right arrays that were contracted, and the new array.
+    Returns
+    -------
+    oddpos : tuple
+        The resolved oddpos.
+    phase : {1, -1}
+        The global phase generated.
     """
-    l_oddpos = left.oddpos
-    r_oddpos = right.oddpos
-
-    if not l_oddpos and not r_oddpos:
-        new._oddpos = ()
-        return
-
     oddpos = [*l_oddpos, *r_oddpos]
 
     # e.g. (1, 2, 4, 5) + (3, 6, 7) -> [1, 2, 4, 5, 3, 6, 7]
-    if left.parity and len(r_oddpos) % 2 == 1:
+    if l_parity and len(r_oddpos) % 2 == 1:
         # moving right oddpos charges over left sectors will generate sign
         phase = -1
     else:
@@ -97,10 +92,31 @@ def resolve_combined_oddpos(left, right, new):
             # already sorted and not conjugate pair, move to next
             i += 1
 
+    return tuple(oddpos), phase
+
+
+def resolve_combined_oddpos(left, right, new):
+    """Given we have contracted two fermionic arrays, resolve the oddpos
+    of the new array, possibly flipping the global phase.
+
+    Parameters
+    ----------
+    left, right, new : FermionicArray
+        The left and right arrays that were contracted, and the new array.
+    """
+    l_oddpos = left.oddpos
+    r_oddpos = right.oddpos
+
+    if not l_oddpos and not r_oddpos:
+        new._oddpos = ()
+        return
+
+    oddpos, phase = resolve_oddpos(l_oddpos, r_oddpos, left.parity)
+
     if phase == -1:
         new.phase_global(inplace=True)
 
-    new._oddpos = tuple(oddpos)
+    new._oddpos = oddpos
 
 
 _fermionic_array_slots = AbelianArray.__slots__ + ("_phases", "_oddpos")
